@@ -22,6 +22,17 @@ func main() {
 		fmt.Println("usage: replay <harness>")
 		os.Exit(4)
 	}
+	if os.Args[1] == "conf" {
+		for _, n := range os.Args[2:] {
+			cf, ok := h.Conf[n]
+			if !ok {
+				fmt.Println("REPLAY-ERROR unknown conformance function", n)
+				os.Exit(4)
+			}
+			fmt.Printf("=== %s\n%s\n", n, cf())
+		}
+		return
+	}
 	f, ok := h.Registry[os.Args[1]]
 	if !ok {
 		fmt.Println("REPLAY-ERROR unknown harness", os.Args[1])
